@@ -437,7 +437,7 @@ func (r *Reader) seek(rec record) (*tableIter, error) {
 	}
 
 	tabIter, err := r.start(rec.typ(), false)
-	if err != nil {
+	if err != nil || tabIter == nil {
 		return nil, err
 	}
 
@@ -454,6 +454,10 @@ func (r *Reader) seekIndexed(want record) (*tableIter, error) {
 	if err != nil {
 		return nil, err
 	}
+	if idxIter == nil {
+		// the index offset does not point at an index block.
+		return nil, fmtError
+	}
 
 	wantIdx := &indexRecord{
 		LastKey: want.key(),
@@ -464,19 +468,27 @@ func (r *Reader) seekIndexed(want record) (*tableIter, error) {
 		return nil, err
 	}
 
-	for {
+	// A corrupt index could point back at itself; real indexes are
+	// only a few levels deep.
+	for level := 0; ; level++ {
+		if level > 64 {
+			return nil, fmtError
+		}
 		var rec indexRecord
 		ok, err := idxIter.Next(&rec)
-		if !ok {
-			return nil, nil
-		}
 		if err != nil {
 			return nil, err
+		}
+		if !ok {
+			return nil, nil
 		}
 
 		tabIter, err := r.tabIterAt(rec.Offset, blockTypeAny)
 		if err != nil {
 			return nil, err
+		}
+		if tabIter == nil {
+			return nil, fmtError
 		}
 
 		err = tabIter.bi.seek(want.key())
@@ -489,7 +501,7 @@ func (r *Reader) seekIndexed(want record) (*tableIter, error) {
 		}
 
 		if tabIter.typ != blockTypeIndex {
-			log.Panicf("got type %c following indexes", tabIter.typ)
+			return nil, fmt.Errorf("reftable: got block type %c following indexes", tabIter.typ)
 		}
 
 		idxIter = tabIter
@@ -520,7 +532,8 @@ func (r *Reader) seekLinear(tabIter *tableIter, want record) (bool, error) {
 			return false, err
 		}
 		if !ok {
-			panic("read from fresh block failed")
+			// a block without records.
+			return false, fmtError
 		}
 		if rec.key() > wantKey {
 			break
@@ -635,6 +648,9 @@ func (r *Reader) refsForLinear(oid []byte) (*Iterator, error) {
 }
 
 func (r *Reader) refsForIndexed(oid []byte) (*Iterator, error) {
+	if r.objectIDLen > len(oid) {
+		return nil, fmtError
+	}
 	want := &objRecord{HashPrefix: oid[:r.objectIDLen]}
 
 	it, err := r.seek(want)
